@@ -280,6 +280,20 @@ Theorem C03_read_live : forall S w ops r n s' d e bug,
 Proof. exact recv_read_live. Qed.
 Print Assumptions C03_read_live.
 
+(** Liveness of Peek in every reachable state: it does not park when an error is latched,
+    and when all n requested bytes are there (unread rest of the current frame or queued
+    contiguously) it returns exactly those n bytes without an error. *)
+Theorem C03_peek_live : forall S w ops r n s' d e bug,
+  0 <= w < MaxBC -> Forall rvalid ops -> rsrun S (rrun_init w) ops = Some r ->
+  0 < n -> PeekS (rr_st r) n = (s', d, e, bug) ->
+  (latched (rr_st r) = true -> e <> EWouldBlock) /\
+  (latched (rr_st r) = false ->
+   (forall x, rpos (rr_st r) <= x < rpos (rr_st r) + n ->
+      x < rpos (rr_st r) + crest (rr_st r) \/ cov (queue (sorter (rr_st r))) x) ->
+   e = ENil /\ len d = n).
+Proof. exact recv_peek_live. Qed.
+Print Assumptions C03_peek_live.
+
 (** Buffers at the ReceiveStream level (currentFrameDone discipline): with distinct doneCb
     ids, in every reachable state the id of every frame handed to the sorter is in exactly one
     place — fired (PutBack called), attached to a queued entry, or owed for the current frame
